@@ -6,7 +6,7 @@
 
    Pointers are evaluated as addresses (unsigned 64-bit integers); the translator only emits pointer arithmetic on
    pointers to single-octet types, anything else becomes CUnknown. *)
-From Coq Require Import ZArith String List Bool.
+From Coq Require Import ZArith String Ascii List Bool.
 Import ListNotations.
 Local Open Scope Z_scope.
 
@@ -30,6 +30,7 @@ Inductive cexpr :=
 | CUn (op : cunop) (t : cty) (a : cexpr)
 | CCond (t : cty) (c a b : cexpr)
 | CCall (t : cty) (f : string) (args : list cexpr)
+| CLoad (t : cty) (a : cexpr)              (* a read from memory at the address a: *p, p[i], q->field where q is itself loaded *)
 | CUnknown.
 
 Definition modulus (t : cty) : Z := 2 ^ c_bits t.
@@ -73,31 +74,43 @@ Definition binop (op : cbinop) (t : cty) (x y : Z) : option Z :=
 
 Definition env := string -> Z.
 
+(* the memory a routine may read: the byte at an address, None where nothing is readable.  Little-endian loads. *)
+Definition memory := Z -> option Z.
+Fixpoint load_le (m : memory) (a : Z) (n : nat) : option Z :=
+  match n with
+  | O => Some 0
+  | S k => match m a, load_le m (a + 1) k with Some b, Some r => Some (b + 256 * r) | _, _ => None end
+  end.
+
 (* && and || do not evaluate their right operand when the left one decides; the sites translated here have no side
    effects, but undefined behaviour on the unevaluated side must not make the whole expression undefined *)
-Fixpoint ceval (rho : env) (e : cexpr) : option Z :=
+Fixpoint ceval (rho : env) (m : memory) (e : cexpr) : option Z :=
   match e with
   | CLit t v => Some (wrap t v)
   | CVar t x => Some (wrap t (rho x))
-  | CCast t a => match ceval rho a with Some v => Some (wrap t v) | None => None end
+  | CCast t a => match ceval rho m a with Some v => Some (wrap t v) | None => None end
   | CBin OLAnd t a b =>
-      match ceval rho a with
-      | Some x => if x =? 0 then Some 0 else match ceval rho b with Some y => Some (b2z (negb (y =? 0))) | None => None end
+      match ceval rho m a with
+      | Some x => if x =? 0 then Some 0 else match ceval rho m b with Some y => Some (b2z (negb (y =? 0))) | None => None end
       | None => None end
   | CBin OLOr t a b =>
-      match ceval rho a with
-      | Some x => if negb (x =? 0) then Some 1 else match ceval rho b with Some y => Some (b2z (negb (y =? 0))) | None => None end
+      match ceval rho m a with
+      | Some x => if negb (x =? 0) then Some 1 else match ceval rho m b with Some y => Some (b2z (negb (y =? 0))) | None => None end
       | None => None end
   | CBin op t a b =>
-      match ceval rho a, ceval rho b with Some x, Some y => binop op t x y | _, _ => None end
-  | CUn UNeg t a => match ceval rho a with Some x => arith t (- x) | None => None end
-  | CUn UNot t a => match ceval rho a with Some x => Some (wrap t (Z.lnot x)) | None => None end
-  | CUn ULNot t a => match ceval rho a with Some x => Some (b2z (x =? 0)) | None => None end
+      match ceval rho m a, ceval rho m b with Some x, Some y => binop op t x y | _, _ => None end
+  | CUn UNeg t a => match ceval rho m a with Some x => arith t (- x) | None => None end
+  | CUn UNot t a => match ceval rho m a with Some x => Some (wrap t (Z.lnot x)) | None => None end
+  | CUn ULNot t a => match ceval rho m a with Some x => Some (b2z (x =? 0)) | None => None end
   | CCond t c a b =>
-      match ceval rho c with
-      | Some x => if negb (x =? 0) then ceval rho a else ceval rho b
+      match ceval rho m c with
+      | Some x => if negb (x =? 0) then ceval rho m a else ceval rho m b
       | None => None end
   | CCall t f _ => Some (wrap t (rho ("ret:" ++ f)%string))      (* the result of a call is an unknown value of its type *)
+  | CLoad t a =>
+      match ceval rho m a with
+      | Some addr => match load_le m addr (Z.to_nat (c_bits t / 8)) with Some v => Some (wrap t v) | None => None end
+      | None => None end
   | CUnknown => None
   end.
 
@@ -115,25 +128,32 @@ Inductive cstmt :=
 | SIf (k : string) (c : cexpr) (a b : list cstmt)
 | SLoop (k : string) (pre : bool) (c : cexpr) (body step : list cstmt)
 | SRet (k : string) (e : option cexpr)
+| SClobber (x : string)       (* a callee was handed &x (or the local array x) through a pointer to non-const: x and its parts are unknown now *)
 | SOther (what : string).
 
 Definition upd (rho : env) (x : string) (v : Z) : env := fun y => if String.eqb y x then v else rho y.
 
+(* after a callee may have written x: every lvalue whose text starts with x reads an arbitrary value - a name of the
+   environment that nothing else mentions, different for every call made so far *)
+Fixpoint primes (n : nat) : string := match n with O => EmptyString | S k => String "'"%char (primes k) end.
+Definition clobber (rho : env) (n : nat) (x : string) : env :=
+  fun y => if String.prefix x y then rho ("havoc:" ++ y ++ primes n)%string else rho y.
+
 Definition event := (string * list Z)%type.           (* routine called, evaluated arguments *)
 
-Inductive outcome :=
+Inductive xresult :=
 | Fell (rho : env) (tr : list event)                   (* reached the end of the statement list *)
 | Returned (v : option Z) (rho : env) (tr : list event)
 | Stuck (why : string)
 | NoFuel.
 
-Fixpoint evals (rho : env) (l : list cexpr) : option (list Z) :=
+Fixpoint evals (rho : env) (m : memory) (l : list cexpr) : option (list Z) :=
   match l with
   | [] => Some []
-  | e :: r => match ceval rho e, evals rho r with Some v, Some vs => Some (v :: vs) | _, _ => None end
+  | e :: r => match ceval rho m e, evals rho m r with Some v, Some vs => Some (v :: vs) | _, _ => None end
   end.
 
-Fixpoint exec (fuel : nat) (rho : env) (tr : list event) (l : list cstmt) : outcome :=
+Fixpoint exec (fuel : nat) (m : memory) (rho : env) (tr : list event) (l : list cstmt) : xresult :=
   match fuel with
   | O => NoFuel
   | S f =>
@@ -141,35 +161,36 @@ Fixpoint exec (fuel : nat) (rho : env) (tr : list event) (l : list cstmt) : outc
     | [] => Fell rho tr
     | s :: r =>
       match s with
-      | SSet k x e => match ceval rho e with Some v => exec f (upd rho x v) tr r | None => Stuck k end
-      | SCall k g args => match evals rho args with Some vs => exec f rho (tr ++ [(g, vs)]) r | None => Stuck k end
+      | SSet k x e => match ceval rho m e with Some v => exec f m (upd rho x v) tr r | None => Stuck k end
+      | SCall k g args => match evals rho m args with Some vs => exec f m rho (tr ++ [(g, vs)]) r | None => Stuck k end
       | SIf k c a b =>
-          match ceval rho c with
-          | Some v => match exec f rho tr (if negb (v =? 0) then a else b) with
-                      | Fell rho' tr' => exec f rho' tr' r
+          match ceval rho m c with
+          | Some v => match exec f m rho tr (if negb (v =? 0) then a else b) with
+                      | Fell rho' tr' => exec f m rho' tr' r
                       | o => o end
           | None => Stuck k end
       | SLoop k pre c body step =>
           let continue_ rho1 tr1 :=
-            match exec f rho1 tr1 body with
-            | Fell rho2 tr2 => match exec f rho2 tr2 step with
-                               | Fell rho3 tr3 => exec f rho3 tr3 (SLoop k true c body step :: r)
+            match exec f m rho1 tr1 body with
+            | Fell rho2 tr2 => match exec f m rho2 tr2 step with
+                               | Fell rho3 tr3 => exec f m rho3 tr3 (SLoop k true c body step :: r)
                                | o => o end
             | o => o end in
           if pre then
-            match ceval rho c with
-            | Some v => if negb (v =? 0) then continue_ rho tr else exec f rho tr r
+            match ceval rho m c with
+            | Some v => if negb (v =? 0) then continue_ rho tr else exec f m rho tr r
             | None => Stuck k end
           else continue_ rho tr
+      | SClobber x => exec f m (clobber rho (length tr) x) tr r
       | SRet k None => Returned None rho tr
-      | SRet k (Some e) => match ceval rho e with Some v => Returned (Some v) rho tr | None => Stuck k end
+      | SRet k (Some e) => match ceval rho m e with Some v => Returned (Some v) rho tr | None => Stuck k end
       | SOther w => Stuck w
       end
     end
   end.
 
 (* what a caller can see of an execution: the value returned (None for void / falling off the end) and the calls made *)
-Definition observe (o : outcome) : option (option Z * list event) :=
+Definition observe (o : xresult) : option (option Z * list event) :=
   match o with
   | Returned v _ tr => Some (v, tr)
   | Fell _ tr => Some (None, tr)
